@@ -1159,6 +1159,16 @@ def main2():
         report["kernels"][sp["fn"] + "(flow skeleton)"] = dict(info, file=sp["file"])
     except Unsupported as e:
         report["errors"].append(f"socket/udp-turn.c:socket_send_message: {e}")
+    try:
+        import extract_flow
+        for sp, body, fname in ((extract_flow.SPEC_CREDS, False, "InitCredentials.lean"), (extract_flow.SPEC_RESTART, True, "StreamRestart.lean")):
+            fpath = os.path.join(REPO, sp["file"])
+            d = ast_of(fpath, sp["fn"])
+            txt, info = extract_flow.translate_oblige(sp, d, open(fpath, "rb").read(), consts, Unsupported, REPO, with_loop_body=body)
+            open(os.path.join(GEN, fname), "w").write(txt)
+            report["kernels"][sp["fn"] + "(obligation skeleton)"] = dict(info, file=sp["file"])
+    except Unsupported as e:
+        report["errors"].append(f"agent/stream.c: restart obligations: {e}")
     out.append("end Nice.Gen\n")
     open(os.path.join(GEN, "Kernels.lean"), "w").write("\n".join(out))
     with open(os.path.join(GEN, "Tables.lean"), "w") as f:
